@@ -187,9 +187,9 @@ def guarded(run, part, fn, *a):
 # ------------------------------------------------------------------------------------------
 # chain generators
 # ------------------------------------------------------------------------------------------
-def gen_model(rng, quick, nmax=None, allow=None):
+def gen_model(rng, quick, nmax=None, allow=None, nmin=2):
     from renormalizer import Model
-    n = int(rng.integers(2, (nmax or (6 if quick else 7))))
+    n = int(rng.integers(nmin, (nmax or (6 if quick else 7))))
     two = rng.random() < 0.3
     spec = L.random_spec(rng, n, two, allow=allow or ("e", "s", "s0", "v", "mv", "me", "e", "e"))
     basis, k = L.make_basis(spec)
@@ -285,10 +285,12 @@ def part_constructors(run, rng, ncases, quick, t_end):
             if time.time() > t_end:
                 run.count("ctor:time-guard")
                 break
-            g = gen_model(rng, quick)
+            g = gen_model(rng, quick, nmin=1 if rng.random() < 0.1 else 2)
             if g is None:
                 continue
             spec, basis, k, model = g
+            if len(spec) == 1:
+                run.count("ctor:one-site-chain")
             what = ["random", "hartree", "ground"][int(rng.choice(3, p=[0.6, 0.3, 0.1]))]
             replay = dict(spec=L.jsonable(spec))
             if what == "random":
@@ -308,6 +310,35 @@ def part_constructors(run, rng, ncases, quick, t_end):
                 replay.update(op="Mps.random", sector=sector, m_max=L.jsonable(m_max), percent=percent)
                 if probs:
                     run.violation("Mps.random:" + short(probs), dict(replay, problems=probs))
+                    continue
+                # truncate a copy (labels watched after every bond of the sweep)
+                try:
+                    w = mps.copy()
+                    if rng.random() < 0.5:
+                        o2 = try_random(run, rng, model, spec, sector, int(rng.integers(2, 7)), 1.0, report=False)
+                        if o2 is not None:
+                            w = w.add(o2.scale(0.7))
+                    w = w.ensure_left_canonical() if rng.random() < 0.5 else w.ensure_right_canonical()
+                    crit = ["fixed", "threshold", "both"][int(rng.integers(3))]
+                    from renormalizer.utils.configs import CompressConfig, CompressCriteria
+                    w.compress_config = CompressConfig(getattr(CompressCriteria, crit), threshold=float(10.0 ** rng.uniform(-3, -0.5)),
+                                                       max_bonddim=int(rng.integers(1, 4)))
+                    found = []
+                    try:
+                        with watch_local_updates(found):
+                            w.compress()
+                        probs = check_chain(w, sector)
+                    except Exception as e:
+                        run.count(f"rejected:ctor:compress-after-random:{type(e).__name__}")
+                        probs = []
+                    n_eval += 1
+                    run.count("ctor:compress-after-random:" + crit)
+                    if found:
+                        run.violation("compress:local-update:labels", dict(replay, criteria=crit, problems=found))
+                    elif probs:
+                        run.violation("compress:" + short(probs), dict(replay, criteria=crit, problems=probs))
+                except Exception as e:
+                    run.count(f"rejected:ctor:compress-after-random-setup:{type(e).__name__}")
                 q = L.config_qn(basis, k)
                 if tuple(sector) == tuple(q.max(axis=0)):
                     run.count("ctor:random:all-occupied-sector")
@@ -998,6 +1029,36 @@ def part_tree(run, rng, ncases, quick, t_end):
             if probs:
                 run.violation(f"TTNS.{what}:" + short(probs), dict(replay, problems=probs))
                 continue
+            # ---- every constructed state: truncate a copy (labels watched after each bond)
+            try:
+                w = t.copy().canonicalise()
+                if rng.random() < 0.5:
+                    L.reseed(rng)
+                    try:
+                        w = w.add(TTNS.random(tree, np.array(sector), int(rng.integers(2, 6))).scale(0.7)).canonicalise()
+                    except Exception:
+                        pass
+                crit = ["fixed", "threshold", "both"][int(rng.integers(3))]
+                w.compress_config = CompressConfig(getattr(CompressCriteria, crit), threshold=float(10.0 ** rng.uniform(-3, -0.5)),
+                                                   max_bonddim=int(rng.integers(1, 4)))
+                found = []
+                try:
+                    with watch_local_updates(found):
+                        w.compress()
+                    probs = check_tree(w, blist, k, sector)
+                except Exception as e:
+                    run.count(f"rejected:tree:compress-after-ctor:{type(e).__name__}")
+                    probs = []
+                n_eval += 1
+                run.count("tree:compress-after-ctor:" + crit)
+                if found:
+                    run.violation("TTNS.compress:local-update:labels", dict(replay, criteria=crit, problems=found))
+                    continue
+                if probs:
+                    run.violation("TTNS.compress:" + short(probs), dict(replay, criteria=crit, problems=probs))
+                    continue
+            except Exception as e:
+                run.count(f"rejected:tree:compress-after-ctor-setup:{type(e).__name__}")
             # ---- a short history
             hist = []
             replay["history"] = hist
@@ -1200,13 +1261,13 @@ def search(run, rng, quick):
     sc = 1 if quick else 10
     directed(run, rng)
     parts = [
-        ("constructors", part_constructors, 150 * sc, 0.10),
-        ("operators", part_operators, 70 * sc, 0.25),
-        ("histories", part_histories, 110 * sc, 0.45),
-        ("dmrg", part_dmrg, 30 * sc, 0.58),
-        ("evolve", part_evolve, 48 * sc, 0.80),
+        ("constructors", part_constructors, 160 * sc, 0.12),
+        ("operators", part_operators, 90 * sc, 0.25),
+        ("histories", part_histories, 150 * sc, 0.45),
+        ("dmrg", part_dmrg, 48 * sc, 0.58),
+        ("evolve", part_evolve, 96 * sc, 0.80),
         ("mpdm", part_mpdm, 30 * sc, 0.85),
-        ("tree", part_tree, 70 * sc, 1.0),
+        ("tree", part_tree, 100 * sc, 1.0),
     ]
     tot_e = tot_d = 0
     detail = {}
